@@ -218,9 +218,8 @@ func (b *circuitBreakerBase) probeCompletedUncounted(failed bool, failedSnapshot
 	}
 	b.addCurProbeNum()
 	if b.probeNumber == 0 || atomic.LoadUint64(&b.curProbeNumber) >= b.probeNumber {
-		if b.fromHalfOpenToClosed() {
-			resetMetric()
-		}
+		resetMetric()
+		b.fromHalfOpenToClosed()
 	}
 }
 
@@ -234,11 +233,23 @@ func (b *circuitBreakerBase) resetCurProbeNum() {
 
 // fromClosedToOpen updates circuit breaker state machine from closed to open.
 // Return true only if current goroutine successfully accomplished the transformation.
+// fromClosedWordToOpen: closedWord is the state word the caller read BEFORE it summed up the statistic that
+// it found at the threshold: the breaker opens only if it is still in that very closed period. With the bare state, a
+// completion that was delayed at this point while the breaker was opened by somebody else, probed and
+// closed again (which clears the statistic) opened the NEW closed period on the count of the old one.
 func (b *circuitBreakerBase) fromClosedToOpen(snapshot interface{}) bool {
+	w := b.state.word()
+	if State(w&stateMask) != Closed {
+		return false
+	}
+	return b.fromClosedWordToOpen(w, snapshot)
+}
+
+func (b *circuitBreakerBase) fromClosedWordToOpen(closedWord int32, snapshot interface{}) bool {
 	// Publish the retry deadline before the state becomes Open: otherwise a concurrent
 	// TryPass can observe Open together with a stale deadline and probe immediately.
 	b.updateNextRetryTimestamp()
-	if b.state.cas(Closed, Open) {
+	if b.state.casWord(closedWord, Open) {
 		b.updateNextRetryTimestamp()
 		for _, listener := range stateChangeListeners {
 			listener.OnTransformToOpen(Closed, *b.rule, snapshot)
@@ -396,6 +407,9 @@ func (b *slowRtCircuitBreaker) OnRequestComplete(rt uint64, _ error) {
 
 	slowCount := uint64(0)
 	totalCount := uint64(0)
+	// the closed period this completion belongs to, if any: read before the statistic is summed up (see
+	// fromClosedWordToOpen)
+	word := b.state.word()
 	counters := metricStat.allCounter()
 	for _, c := range counters {
 		slowCount += atomic.LoadUint64(&c.slowCount)
@@ -415,8 +429,10 @@ func (b *slowRtCircuitBreaker) OnRequestComplete(rt uint64, _ error) {
 			b.addCurProbeNum()
 			if b.probeNumber == 0 || atomic.LoadUint64(&b.curProbeNumber) >= b.probeNumber {
 				// succeed to probe
-				b.fromHalfOpenToClosed()
+				// (the statistic is cleared BEFORE the breaker is seen closed: a completion that found it closed
+				// and the old counts still in place opened it again on the spot)
 				b.resetMetric()
+				b.fromHalfOpenToClosed()
 			}
 		}
 		return
@@ -433,7 +449,7 @@ func (b *slowRtCircuitBreaker) OnRequestComplete(rt uint64, _ error) {
 		curStatus = b.CurrentState()
 		switch curStatus {
 		case Closed:
-			b.fromClosedToOpen(slowRatio)
+			b.fromClosedWordToOpen(word, slowRatio)
 		case HalfOpen:
 			b.fromHalfOpenToOpen(slowRatio)
 		default:
@@ -591,6 +607,9 @@ func (b *errorRatioCircuitBreaker) OnRequestComplete(_ uint64, err error) {
 
 	errorCount := uint64(0)
 	totalCount := uint64(0)
+	// the closed period this completion belongs to, if any: read before the statistic is summed up (see
+	// fromClosedWordToOpen)
+	word := b.state.word()
 	counters := metricStat.allCounter()
 	for _, c := range counters {
 		errorCount += atomic.LoadUint64(&c.errorCount)
@@ -607,8 +626,10 @@ func (b *errorRatioCircuitBreaker) OnRequestComplete(_ uint64, err error) {
 		if err == nil {
 			b.addCurProbeNum()
 			if b.probeNumber == 0 || atomic.LoadUint64(&b.curProbeNumber) >= b.probeNumber {
-				b.fromHalfOpenToClosed()
+				// (the statistic is cleared BEFORE the breaker is seen closed: a completion that found it closed
+				// and the old counts still in place opened it again on the spot)
 				b.resetMetric()
+				b.fromHalfOpenToClosed()
 			}
 		} else {
 			b.fromHalfOpenToOpen(1.0)
@@ -624,7 +645,7 @@ func (b *errorRatioCircuitBreaker) OnRequestComplete(_ uint64, err error) {
 		curStatus = b.CurrentState()
 		switch curStatus {
 		case Closed:
-			b.fromClosedToOpen(errorRatio)
+			b.fromClosedWordToOpen(word, errorRatio)
 		case HalfOpen:
 			b.fromHalfOpenToOpen(errorRatio)
 		default:
@@ -781,6 +802,9 @@ func (b *errorCountCircuitBreaker) OnRequestComplete(_ uint64, err error) {
 
 	errorCount := uint64(0)
 	totalCount := uint64(0)
+	// the closed period this completion belongs to, if any: read before the statistic is summed up (see
+	// fromClosedWordToOpen)
+	word := b.state.word()
 	counters := metricStat.allCounter()
 	for _, c := range counters {
 		errorCount += atomic.LoadUint64(&c.errorCount)
@@ -795,8 +819,10 @@ func (b *errorCountCircuitBreaker) OnRequestComplete(_ uint64, err error) {
 		if err == nil {
 			b.addCurProbeNum()
 			if b.probeNumber == 0 || atomic.LoadUint64(&b.curProbeNumber) >= b.probeNumber {
-				b.fromHalfOpenToClosed()
+				// (the statistic is cleared BEFORE the breaker is seen closed: a completion that found it closed
+				// and the old counts still in place opened it again on the spot)
 				b.resetMetric()
+				b.fromHalfOpenToClosed()
 			}
 		} else {
 			b.fromHalfOpenToOpen(1)
@@ -811,7 +837,7 @@ func (b *errorCountCircuitBreaker) OnRequestComplete(_ uint64, err error) {
 		curStatus = b.CurrentState()
 		switch curStatus {
 		case Closed:
-			b.fromClosedToOpen(errorCount)
+			b.fromClosedWordToOpen(word, errorCount)
 		case HalfOpen:
 			b.fromHalfOpenToOpen(errorCount)
 		default:
